@@ -18,7 +18,7 @@ Statements  : ('assign', target, e)  target = ('var', x) | ('attr', e, name)
               ('relate_using', a, b, l, rel) ('unrelate_using', a, b, l, rel)
               ('select', card, v, K, where|None)          card in any|many
               ('select_rel', card, v, start, [(K, rel, phrase|None)..], where|None)   card in one|any|many
-              ('callstmt', callexpr)
+              ('callstmt', callexpr[, 'transform' | 'bridge'])
 """
 
 ATTRS = {'A': ['n', 's', 'b'], 'B': ['v'], 'C': ['k'], 'L': ['w']}
@@ -141,7 +141,8 @@ def stmt_text(s, ind=0, st='lower'):
             out += ' %s %s' % (K('where'), expr_text(s[5], st))
         return out + ';\n'
     if t == 'callstmt':
-        return p + call_text(s[1], st) + ';\n'
+        # optional third field: the statement keyword (transform / bridge) written in front of the invocation
+        return p + ((K(s[2]) + ' ') if len(s) > 2 else '') + call_text(s[1], st) + ';\n'
     raise ValueError(s)
 
 
